@@ -114,7 +114,7 @@ def opRender (desc tree : String) : String :=
   | _, _ => "bad-input"
 
 /-- op `spec`: executable spec predicates judged on the IMPLEMENTATION's outputs -/
-def opSpec (name : String) (args : List String) : String :=
+def opSpec (env : Env) (name : String) (args : List String) : String :=
   match name, args with
   | "wellformed", [tree] =>
     (match parseCanonExpr tree with
@@ -139,11 +139,16 @@ def opSpec (name : String) (args : List String) : String :=
         | some l => specC04 t (hexOr inline) (hexOr psql) l
         | none => "0:unreadable parameter list")
      | none => "0:unreadable tree")
+  | "c06", [q, df, tree] =>
+    (match parseCanonExpr tree with
+     | some t => specC06 env (hexOr q) (hexOr df) t
+     | none => "0:unreadable tree")
   | "c11", [treeDF, treeNo, df] =>
     (match parseCanonExpr treeDF, parseCanonExpr treeNo with
      | some a, some c =>
        let dfb := hexOr df
        if canonExpr (eraseDf dfb a) != canonExpr c then "0:erasing the default-field scoping does not give back the tree obtained without the option"
+       else if !noRescoped dfb a then "0:an explicitly fielded term was re-scoped with the default field"
        else if !noBareTerm a then "0:a bare term remains unscoped"
        else "1"
      | _, _ => "0:unreadable tree")
@@ -165,7 +170,7 @@ def handle (env : Env) (line : String) : String :=
   | ["lex", s] => opLex env (hexOr s)
   | ["uj", d] => opUnjson env (hexOr d)
   | ["render", desc, tree] => opRender desc tree
-  | "spec" :: name :: args => opSpec name args
+  | "spec" :: name :: args => opSpec env name args
   | ["ping"] => "pong"
   | _ => "bad-op"
 
